@@ -15,8 +15,10 @@ import (
 	"bytes"
 	"encoding/hex"
 	"fmt"
+	"reflect"
 	"runtime/debug"
 	"sort"
+	"strconv"
 	"sync"
 	"sync/atomic"
 	"testing"
@@ -52,10 +54,13 @@ type c04Uni struct {
 	psid   []*PartSetID // per decision (nil for the nil decision)
 	psidAD []*PartSetIDAndAppData
 	ops    []c04Op
+	// for the reflective state key
+	ptrLabel   map[uintptr]string // *VoteMessage -> "set.slot.vote"
+	bytesLabel map[string]string  // well-known byte strings -> short label
 }
 
 type c04Op struct {
-	Kind int `json:"k"` // 0 add, 1 checkAndAdd(Add), 2 query
+	Kind int `json:"k"` // 0 add, 1 checkAndAdd(Add), 2 majority query, 3 all other observers
 	Set  int `json:"s"`
 	Idx  int `json:"i"`
 	Vote int `json:"v"`
@@ -65,6 +70,8 @@ func (o c04Op) String() string {
 	switch o.Kind {
 	case 2:
 		return fmt.Sprintf("query(set%d)", o.Set)
+	case 3:
+		return fmt.Sprintf("observe(set%d)", o.Set)
 	case 1:
 		return fmt.Sprintf("Add(set%d,%d,v%d)", o.Set, o.Idx, o.Vote)
 	}
@@ -112,9 +119,8 @@ func c04NewUni(cfg c04Cfg) *c04Uni {
 		psid *PartSetIDAndAppData
 	}
 	var decs []dec
-	decs = append(decs, dec{c04Fill(0xA1), (&PartSetID{Count: 1, Hash: c04Fill(0xA2)}).WithAppData(psidAppData(1, 0))})
-	if cfg.D == 3 {
-		decs = append(decs, dec{c04Fill(0xB1), (&PartSetID{Count: 2, Hash: c04Fill(0xB2)}).WithAppData(psidAppData(1, 0))})
+	for b := 0; b < cfg.D-1; b++ { // D-1 blocks (A, B, C ...) and nil
+		decs = append(decs, dec{c04Fill(byte(0xA1 + 0x10*b)), (&PartSetID{Count: uint16(1 + b), Hash: c04Fill(byte(0xA2 + 0x10*b))}).WithAppData(psidAppData(1, 0))})
 	}
 	decs = append(decs, dec{codec.MustMarshalToBytes(1), nil})
 	for _, d := range decs {
@@ -148,6 +154,22 @@ func c04NewUni(cfg c04Cfg) *c04Uni {
 			}
 		}
 	}
+	u.ptrLabel = map[uintptr]string{}
+	u.bytesLabel = map[string]string{}
+	for s := range u.msgs {
+		for i := range u.msgs[s] {
+			for v, m := range u.msgs[s][i] {
+				u.ptrLabel[reflect.ValueOf(m).Pointer()] = fmt.Sprintf("m%d.%d.%d;", s, i, v)
+			}
+		}
+	}
+	for d, x := range decs {
+		u.bytesLabel[string(x.bid)] = fmt.Sprintf("bid%d", d)
+		if x.psid != nil {
+			u.bytesLabel[string(x.psid.Hash)] = fmt.Sprintf("ps%d", d)
+		}
+		u.bytesLabel[string(u.msgs[0][0][d*cfg.T*cfg.E].RoundDecisionDigest())] = fmt.Sprintf("rdd%d", d)
+	}
 	for d := range decs {
 		u.rdd = append(u.rdd, u.msgs[0][0][d*cfg.T*cfg.E].RoundDecisionDigest())
 	}
@@ -167,6 +189,7 @@ func c04NewUni(cfg c04Cfg) *c04Uni {
 	}
 	for s := 0; s < u.nSets; s++ {
 		u.ops = append(u.ops, c04Op{2, s, 0, 0})
+		u.ops = append(u.ops, c04Op{3, s, 0, 0})
 	}
 	return u
 }
@@ -257,7 +280,7 @@ func c04NewModel(u *c04Uni) *c04Model {
 
 // recount returns the per-decision tallies, the number of filled slots and the
 // decision (or -1) that more than two thirds of the n slots hold.
-func (m *c04Model) recount(u *c04Uni, s int) (cnt [3]int, filled int, decided int, nDecided int) {
+func (m *c04Model) recount(u *c04Uni, s int) (cnt [4]int, filled int, decided int, nDecided int) {
 	for _, v := range m.slots[s] {
 		if v >= 0 {
 			cnt[u.decOf(int(v))]++
@@ -339,38 +362,114 @@ func (u *c04Uni) rddLabel(rdd []byte) byte {
 	return '?'
 }
 
-// key serialises the complete internal state of the real object(s).
+// key serialises the complete internal state of the real object(s) by walking
+// EVERY field of the real structs with reflection (not a hand-picked list): a
+// field added to voteSet/heightVoteSet/counter/BitArray tomorrow is part of the
+// state identity automatically, so two objects that differ only in a field the
+// harness has never heard of are never merged by the BFS.
 func (s *c04Sys) key() string {
-	b := make([]byte, 0, 40*s.u.nSets)
-	for si := 0; si < s.u.nSets; si++ {
-		vs := s.set(si)
-		if vs == nil {
-			b = append(b, '~', '/')
-			continue
-		}
-		for i, m := range vs.msgs {
-			b = append(b, s.u.msgLabel(si, i, m))
-		}
-		b = append(b, '|')
-		for _, c := range vs.counters {
-			b = append(b, s.u.rddLabel(c.roundDecisionDigest), byte('0'+c.count))
-			if c.partsIDAndNTSVoteCount == nil {
-				b = append(b, 'n')
-			} else {
-				b = append(b, byte('0'+c.partsIDAndNTSVoteCount.CountWord&0xf))
-			}
-		}
-		b = append(b, '|', byte('0'+vs.maxIndex+1), byte('0'+vs.count), byte('0'+vs.round+1), '|')
-		for i := 0; i < vs.mask.Len(); i++ {
-			if vs.mask.Get(i) {
-				b = append(b, '1')
-			} else {
-				b = append(b, '0')
-			}
-		}
-		b = append(b, '/')
+	b := make([]byte, 0, 64*s.u.nSets)
+	if s.hvs != nil {
+		s.u.canon(&b, reflect.ValueOf(s.hvs))
+	} else {
+		s.u.canon(&b, reflect.ValueOf(s.vs))
 	}
 	return string(b)
+}
+
+var c04VoteMsgPtrType = reflect.TypeOf((*VoteMessage)(nil))
+
+func (u *c04Uni) canon(b *[]byte, v reflect.Value) {
+	switch v.Kind() {
+	case reflect.Bool:
+		if v.Bool() {
+			*b = append(*b, 'T')
+		} else {
+			*b = append(*b, 'F')
+		}
+	case reflect.Int, reflect.Int8, reflect.Int16, reflect.Int32, reflect.Int64:
+		*b = strconv.AppendInt(*b, v.Int(), 10)
+		*b = append(*b, ',')
+	case reflect.Uint, reflect.Uint8, reflect.Uint16, reflect.Uint32, reflect.Uint64, reflect.Uintptr:
+		*b = strconv.AppendUint(*b, v.Uint(), 16)
+		*b = append(*b, ',')
+	case reflect.String:
+		*b = append(*b, v.String()...)
+		*b = append(*b, ',')
+	case reflect.Ptr:
+		if v.IsNil() {
+			*b = append(*b, '~')
+			return
+		}
+		if v.Type() == c04VoteMsgPtrType {
+			// votes are immutable inputs: identified by which message of the alphabet it is
+			if l, ok := u.ptrLabel[v.Pointer()]; ok {
+				*b = append(*b, l...)
+			} else {
+				*b = append(*b, "?vote"...)
+			}
+			return
+		}
+		*b = append(*b, '&')
+		u.canon(b, v.Elem())
+	case reflect.Slice:
+		if v.IsNil() {
+			*b = append(*b, '~')
+			return
+		}
+		if v.Type().Elem().Kind() == reflect.Uint8 {
+			bs := v.Bytes()
+			if l, ok := u.bytesLabel[string(bs)]; ok {
+				*b = append(*b, l...)
+			} else {
+				*b = append(*b, hex.EncodeToString(bs)...)
+			}
+			*b = append(*b, ',')
+			return
+		}
+		fallthrough
+	case reflect.Array:
+		*b = append(*b, '[')
+		for i := 0; i < v.Len(); i++ {
+			u.canon(b, v.Index(i))
+		}
+		*b = append(*b, ']')
+	case reflect.Struct:
+		*b = append(*b, '{')
+		for i := 0; i < v.NumField(); i++ {
+			u.canon(b, v.Field(i))
+		}
+		*b = append(*b, '}')
+	case reflect.Map:
+		// deterministic: sort entries by the canonical form of the key
+		type kv struct{ k, v []byte }
+		var es []kv
+		it := v.MapRange()
+		for it.Next() {
+			var kb, vb []byte
+			u.canon(&kb, it.Key())
+			u.canon(&vb, it.Value())
+			es = append(es, kv{kb, vb})
+		}
+		sort.Slice(es, func(i, j int) bool { return bytes.Compare(es[i].k, es[j].k) < 0 })
+		*b = append(*b, '<')
+		for _, e := range es {
+			*b = append(*b, e.k...)
+			*b = append(*b, ':')
+			*b = append(*b, e.v...)
+		}
+		*b = append(*b, '>')
+	case reflect.Interface:
+		if v.IsNil() {
+			*b = append(*b, '~')
+			return
+		}
+		u.canon(b, v.Elem())
+	default:
+		// func / chan / unsafe pointer inside a vote set: cannot be part of a value
+		// identity; make it visible instead of silently ignoring it
+		*b = append(*b, "!"+v.Kind().String()...)
+	}
 }
 
 type c04Fail struct {
@@ -379,7 +478,7 @@ type c04Fail struct {
 }
 
 type c04Stats struct {
-	mu                                                                                     sync.Mutex
+	mu                                                                                    sync.Mutex
 	added, dup, sticky, replaced, caddRefused, decidedStates, undecidedStates, viewChecks int64
 }
 
@@ -408,7 +507,22 @@ func (s *c04Sys) applyOp(m *c04Model, op c04Op, st *c04Stats) *c04Fail {
 				vs = s.hvs.votesFor(int32(op.Set/2), VoteType(op.Set%2))
 			}
 		}
-		vs.getOverTwoThirdsRoundDecisionDigest() // mutates only the maxIndex cache
+		vs.getOverTwoThirdsRoundDecisionDigest() // on the unchanged tree: refreshes only the maxIndex cache
+		return nil
+	case 3:
+		// every other read-side entry point, on the SAME object that later ops use
+		vs := s.set(op.Set)
+		if vs == nil {
+			return nil
+		}
+		vs.hasOverTwoThirds()
+		vs.getOverTwoThirdsPartSetID()
+		vs.voteListForOverTwoThirds()
+		_, _ = vs.commitVoteListForOverTwoThirds(nil)
+		vs.voteSetForOverTwoThird()
+		vs.voteList()
+		vs.getMask()
+		vs.getRound()
 		return nil
 	}
 	msg := u.msgs[op.Set][op.Idx][op.Vote]
@@ -494,6 +608,62 @@ func (s *c04Sys) applyOp(m *c04Model, op c04Op, st *c04Stats) *c04Fail {
 	return nil
 }
 
+// checkCore compares the two answers the property is about — "is there +2/3"
+// and "which decision has it" — with the independent recount. It is run on the
+// end object of EVERY explored history (not only on newly discovered states).
+func (s *c04Sys) checkCore(m *c04Model, si int, vs *voteSet) *c04Fail {
+	u := s.u
+	n := u.cfg.N
+	cnt, filled, dec, nDec := m.recount(u, si)
+	if nDec > 1 {
+		return &c04Fail{"two-decisions-with-majority", fmt.Sprintf("set %d tallies %v of n=%d", si, cnt, n)}
+	}
+	if got, want := vs.hasOverTwoThirds(), 3*filled > 2*n; got != want {
+		return &c04Fail{fmt.Sprintf("hasOverTwoThirds-%v-want-%v", got, want), fmt.Sprintf("set %d filled=%d n=%d", si, filled, n)}
+	}
+	for rep := 0; rep < 2; rep++ { // twice: uncached and cached path
+		psid, ok := vs.getOverTwoThirdsPartSetID()
+		rdd, psid2, ok2 := vs.getOverTwoThirdsRoundDecisionDigest()
+		if ok != (dec >= 0) || ok2 != ok {
+			kind := "reported-without-majority"
+			if dec >= 0 {
+				kind = "majority-not-reported"
+			}
+			return &c04Fail{"decision-" + kind, fmt.Sprintf("set %d tallies=%v n=%d reported ok=%v/%v (query #%d)", si, cnt, n, ok, ok2, rep)}
+		}
+		if ok {
+			if rdd == nil || !psid.Equal(u.psid[dec]) || !psid2.Equal(u.psid[dec]) {
+				return &c04Fail{"decision-wrong-one-reported", fmt.Sprintf("set %d tallies=%v n=%d want decision %d got rdd=%c psid=%v", si, cnt, n, dec, u.rddLabel(rdd), psid)}
+			}
+		} else if rdd != nil || psid != nil || psid2 != nil {
+			return &c04Fail{"decision-value-without-ok", fmt.Sprintf("set %d", si)}
+		}
+	}
+	return nil
+}
+
+// checkDifferential: the answers of the real object after its history must
+// equal the answers of a FRESH real object that received the same final slot
+// contents in slot order with no query in between.
+func (s *c04Sys) checkDifferential(si int, vs *voteSet) *c04Fail {
+	fresh := newVoteSet(len(vs.msgs))
+	for i, msg := range vs.msgs {
+		if msg != nil {
+			fresh.add(i, msg)
+		}
+	}
+	p1, ok1 := vs.getOverTwoThirdsPartSetID()
+	p2, ok2 := fresh.getOverTwoThirdsPartSetID()
+	if ok1 != ok2 || !p1.Equal(p2) || vs.hasOverTwoThirds() != fresh.hasOverTwoThirds() {
+		return &c04Fail{"answers-differ-from-fresh-object-with-same-slots", fmt.Sprintf("set %d: history object says (%v,%v,%v), fresh object with the same slot contents says (%v,%v,%v)", si, p1, ok1, vs.hasOverTwoThirds(), p2, ok2, fresh.hasOverTwoThirds())}
+	}
+	l1, l2 := vs.voteListForOverTwoThirds(), fresh.voteListForOverTwoThirds()
+	if (l1 == nil) != (l2 == nil) || (l1 != nil && l1.Len() != l2.Len()) {
+		return &c04Fail{"answers-differ-from-fresh-object-with-same-slots", fmt.Sprintf("set %d: voteListForOverTwoThirds", si)}
+	}
+	return nil
+}
+
 // checkState runs the state oracle (all read-side observers) on a system that
 // is in the state described by m. The system is thrown away afterwards because
 // observers refresh the maxIndex cache.
@@ -505,12 +675,9 @@ func (s *c04Sys) checkState(m *c04Model, st *c04Stats) *c04Fail {
 		if vs == nil {
 			continue // round/type never touched: no object exists yet
 		}
-		cnt, filled, dec, nDec := m.recount(u, si)
-		if nDec > 1 {
-			return &c04Fail{"two-decisions-with-majority", fmt.Sprintf("set %d tallies %v of n=%d", si, cnt, n)}
-		}
-		if got, want := vs.hasOverTwoThirds(), 3*filled > 2*n; got != want {
-			return &c04Fail{fmt.Sprintf("hasOverTwoThirds-%v-want-%v", got, want), fmt.Sprintf("set %d filled=%d n=%d", si, filled, n)}
+		_, _, dec, _ := m.recount(u, si)
+		if f := s.checkCore(m, si, vs); f != nil {
+			return f
 		}
 		// supporting votes in slot order
 		var sup []*VoteMessage
@@ -523,24 +690,6 @@ func (s *c04Sys) checkState(m *c04Model, st *c04Stats) *c04Fail {
 					sup = append(sup, u.msgs[si][i][v])
 					supIdx = append(supIdx, i)
 				}
-			}
-		}
-		for rep := 0; rep < 2; rep++ { // twice: uncached and cached path
-			psid, ok := vs.getOverTwoThirdsPartSetID()
-			rdd, psid2, ok2 := vs.getOverTwoThirdsRoundDecisionDigest()
-			if ok != (dec >= 0) || ok2 != ok {
-				kind := "reported-without-majority"
-				if dec >= 0 {
-					kind = "majority-not-reported"
-				}
-				return &c04Fail{"decision-" + kind, fmt.Sprintf("set %d tallies=%v n=%d reported ok=%v/%v (query #%d)", si, cnt, n, ok, ok2, rep)}
-			}
-			if ok {
-				if rdd == nil || !psid.Equal(u.psid[dec]) || !psid2.Equal(u.psid[dec]) {
-					return &c04Fail{"decision-wrong-one-reported", fmt.Sprintf("set %d tallies=%v n=%d want decision %d got rdd=%c psid=%v", si, cnt, n, dec, u.rddLabel(rdd), psid)}
-				}
-			} else if rdd != nil || psid != nil || psid2 != nil {
-				return &c04Fail{"decision-value-without-ok", fmt.Sprintf("set %d", si)}
 			}
 		}
 		if st != nil {
@@ -634,6 +783,9 @@ func (s *c04Sys) checkState(m *c04Model, st *c04Stats) *c04Fail {
 				return &c04Fail{"mask-differs-from-filled-slots", fmt.Sprintf("set %d bit %d", si, i)}
 			}
 		}
+		if f := s.checkDifferential(si, vs); f != nil {
+			return f
+		}
 	}
 	return nil
 }
@@ -667,13 +819,28 @@ func c04Run(u *c04Uni, hist []uint16, wantState bool, st, sst *c04Stats) (key st
 		}
 		var f *c04Fail
 		if p := ev.Catch(func() { f = s.applyOp(m, u.ops[oi], stp) }); p != "" {
-			f = &c04Fail{"panic-in-" + []string{"add", "Add", "query"}[u.ops[oi].Kind], fmt.Sprintf("%v panicked: %s", u.ops[oi], p)}
+			f = &c04Fail{"panic-in-" + []string{"add", "Add", "query", "observer"}[u.ops[oi].Kind], fmt.Sprintf("%v panicked: %s", u.ops[oi], p)}
 		}
 		if f != nil {
 			return "", false, f
 		}
 	}
 	key = s.key()
+	if !wantState {
+		var f *c04Fail
+		if p := ev.Catch(func() {
+			for si := 0; si < u.nSets && f == nil; si++ {
+				if vs := s.set(si); vs != nil {
+					f = s.checkCore(m, si, vs)
+				}
+			}
+		}); p != "" {
+			f = &c04Fail{"panic-in-observer", "the majority query panicked: " + p}
+		}
+		if f != nil {
+			return key, false, f
+		}
+	}
 	if wantState {
 		var f *c04Fail
 		if p := ev.Catch(func() { f = s.checkState(m, sst) }); p != "" {
@@ -821,6 +988,8 @@ func c04Configs(thorough bool) []c04Cfg {
 			c04Cfg{Name: "vs-n5-3dec", N: 5, D: 3, T: 1, CAdd: true},
 			c04Cfg{Name: "vs-n6-3dec", N: 6, D: 3, T: 1},
 			c04Cfg{Name: "vs-n7-2dec", N: 7, D: 2, T: 1},
+			c04Cfg{Name: "vs-n4-4dec", N: 4, D: 4, T: 1, CAdd: true},
+			c04Cfg{Name: "vs-n5-4dec", N: 5, D: 4, T: 1},
 			c04Cfg{Name: "vs-n1-wire", N: 1, D: 2, T: 1, E: 3, CAdd: true},
 			c04Cfg{Name: "vs-n2-wire", N: 2, D: 2, T: 1, E: 3, CAdd: true},
 			c04Cfg{Name: "vs-n3-wire", N: 3, D: 2, T: 1, E: 3, CAdd: true},
@@ -845,6 +1014,9 @@ func c04Configs(thorough bool) []c04Cfg {
 		c04Cfg{Name: "vs-n2-wire", N: 2, D: 2, T: 1, E: 3, CAdd: true},
 		c04Cfg{Name: "vs-n3-wire", N: 3, D: 2, T: 1, E: 3, CAdd: true},
 		c04Cfg{Name: "vs-n4-wire", N: 4, D: 2, T: 1, E: 3, CAdd: true},
+		c04Cfg{Name: "vs-n4-4dec", N: 4, D: 4, T: 1, CAdd: true},
+		c04Cfg{Name: "vs-n5-4dec", N: 5, D: 4, T: 1, CAdd: true},
+		c04Cfg{Name: "vs-n6-4dec", N: 6, D: 4, T: 1},
 		c04Cfg{Name: "vs-n5-wire", N: 5, D: 2, T: 1, E: 3},
 		c04Cfg{Name: "vs-n3-wire-full", N: 3, D: 3, T: 2, E: 3},
 		c04Cfg{Name: "hvs-n2", N: 2, D: 2, T: 1, HVS: true},
@@ -859,7 +1031,7 @@ func c04Configs(thorough bool) []c04Cfg {
 
 func TestVerifC04(t *testing.T) {
 	r := ev.Start(t, "C04", "model_checking")
-	r.Rule("explicit-state BFS over the real voteSet/heightVoteSet; a state is the full internal state (slots, counter list order, maxIndex cache, count, mask, round), ops are add(index,vote), Add(index,vote)=checkAndAdd and the cache-refreshing query, votes range over {block A, block B, nil} x {two timestamps}, in the *-wire configurations each vote additionally in three receiver forms (built in-process, marshal->unmarshal, re-encoded with an explicit empty NTS-vote list ->unmarshal) that the model counts as one vote; every transition is re-executed from the initial state on a fresh real object and compared with a slot-array model; every distinct state is checked by an independent recount; non-trivial = distinct reachable real state in which some decision has +2/3 of the slots or is exactly one vote short of it")
+	r.Rule("explicit-state BFS over the real voteSet/heightVoteSet; a state is the full internal state obtained by walking EVERY field of the real structs with reflection (so fields unknown to the harness are part of the identity), ops on the same object are add(index,vote), Add(index,vote)=checkAndAdd, the majority query and one op that calls all other observers, votes range over {block A, block B, nil} x {two timestamps}, in the *-wire configurations each vote additionally in three receiver forms (built in-process, marshal->unmarshal, re-encoded with an explicit empty NTS-vote list ->unmarshal) that the model counts as one vote; every transition is re-executed from the initial state on a fresh real object and compared with a slot-array model; the majority answers are compared with an independent recount after EVERY explored history, all derived views and a differential comparison with a fresh object holding the same slots on every distinct state; non-trivial = distinct reachable real state in which some decision has +2/3 of the slots or is exactly one vote short of it")
 	r.Assume("votes handed to a voteSet belong to that set's height/round/type (consensus routes them through heightVoteSet.votesFor); signatures are not checked by voteSet and are only used to identify votes in the derived views",
 		"replacement rule taken as documented in voteSet.add: a slot's vote is replaced by a different vote unless the old vote supports the current +2/3 decision")
 
